@@ -123,6 +123,30 @@ func genCase(t *rapid.T) c01Case {
 	for i := 0; i < nf; i++ {
 		c.Faults = append(c.Faults, genFault(t))
 	}
+	if gen.Chance(t, 5, "cachedforgery") {
+		// A forged complete leaf tile sits in the cache. The client first looks up another record of that tile
+		// (which must fail: the tile does not authenticate) and then the record the forgery is about, which the
+		// coherent adversary answers with the forged text. Whatever the first lookup left behind in the client
+		// must not vouch for the second.
+		c.H = []int{1, 2, 2, 3}[gen.Uniform(t, 4, "fh")]
+		w := int64(1) << uint(c.H)
+		c.N = 2*w + 1 + rapid.Int64Range(0, 30).Draw(t, "fextra")
+		c.Serve, c.Stored = c.N, 0
+		c.Prefill, c.PrefillTo = 1, c.N // even record ids and even tiles are cached, odd ones are not
+		id := int64(1)
+		if w > 2 && rapid.Bool().Draw(t, "fid3") {
+			id = 3
+		}
+		other := int64(0)
+		if w > 2 && rapid.Bool().Draw(t, "fother2") {
+			other = 2
+		}
+		c.Steps = []step{{Mod: other}, {Mod: id, GoMod: rapid.Bool().Draw(t, "fgomod")}}
+		if rapid.Bool().Draw(t, "fthird") {
+			c.Steps = append(c.Steps, step{Mod: id})
+		}
+		c.Faults = []sw.Fault{{Op: "cache", Class: "tile", Ord: 0, Occ: 0, Kind: "forged-record"}}
+	}
 	return c
 }
 
